@@ -5,8 +5,11 @@ package interp
 import (
 	"fmt"
 	"math"
+	"os"
 	"sort"
 	"strings"
+	"sync"
+	"time"
 
 	"gosym/smt"
 )
@@ -78,6 +81,8 @@ type PathResult struct {
 	Observes    []string
 	Choices     map[string]int
 	Witness     *Witness
+	FeasUnknown int
+	FeasSkipped bool
 	Stats       smt.Stats
 }
 
@@ -102,6 +107,9 @@ type pathState struct {
 	opts      *Options
 	pcChecked bool // pc known satisfiable since last strengthening
 
+	atoms       map[int]bool
+	lazy        bool
+	wantWitness bool
 	lastModel   map[string]string
 	leakCheck   bool
 	poolNondet  bool
@@ -123,6 +131,9 @@ type Options struct {
 	Params       map[string]int
 	Seed         int64
 	Witnesses    int // number of passing-path models to collect for translator validation
+	KnownSeen    *sync.Map
+	ReachSeen    *sync.Map
+	LazyFP       bool
 }
 
 func (p *pathState) nextDecision() (int, bool) {
@@ -152,10 +163,33 @@ func (p *pathState) assume(t *smt.Term) {
 	}
 	p.pc = append(p.pc, t)
 	p.sess.Assert(t)
+	p.noteAtoms(t)
+}
+
+// noteAtoms records the conjuncts of an assumed formula for the syntactic branch cache.
+func (p *pathState) noteAtoms(t *smt.Term) {
+	if p.atoms == nil {
+		p.atoms = map[int]bool{}
+	}
+	if t.Op == "and" {
+		for _, a := range t.Args {
+			p.noteAtoms(a)
+		}
+		return
+	}
+	p.atoms[t.ID()] = true
 }
 
 // branch decides a symbolic condition, forking when both sides are feasible.
 func (p *pathState) branch(c *smt.Term, what string) bool {
+	if c.IsTrue() {
+		return true
+	}
+	if c.IsFalse() {
+		return false
+	}
+	// syntactic cache: the condition (or its negation) is already on the path
+	c = smt.SimplifyUnder(c, p.atoms)
 	if c.IsTrue() {
 		return true
 	}
@@ -171,6 +205,16 @@ func (p *pathState) branch(c *smt.Term, what string) bool {
 		p.assume(smt.Not(c))
 		return false
 	}
+	if p.opts.LazyFP && smt.HasFP(c) {
+		// float conditions are not decided eagerly: both sides are explored and the
+		// path's feasibility is settled once at its end (sound: assertions on an
+		// infeasible path hold vacuously)
+		p.lazy = true
+		p.fork(0)
+		p.record(1)
+		p.assume(c)
+		return true
+	}
 	rT := p.sess.CheckWith(c)
 	var rF smt.Result
 	if rT == smt.Unsat {
@@ -179,10 +223,10 @@ func (p *pathState) branch(c *smt.Term, what string) bool {
 		rF = p.sess.CheckWith(smt.Not(c))
 	}
 	if rT == smt.Unknown {
-		p.res.Unknowns = append(p.res.Unknowns, "feasibility:"+what)
+		p.res.FeasUnknown++
 	}
 	if rF == smt.Unknown {
-		p.res.Unknowns = append(p.res.Unknowns, "feasibility:"+what)
+		p.res.FeasUnknown++
 	}
 	switch {
 	case rT != smt.Unsat && rF != smt.Unsat:
@@ -336,18 +380,46 @@ func (p *pathState) checkAssert(site string, c *smt.Term, msg string) {
 	p.res.Asserts++
 	known := p.pendKnown
 	p.pendKnown = nil
+	c = smt.SimplifyUnder(c, p.atoms)
 	if c.IsTrue() {
 		return
 	}
 	neg := smt.Not(c)
 	// (1) violation outside the known regions
 	extra := []*smt.Term{neg}
-	for _, k := range known {
-		if p.opts.KnownOpen[k.id] {
-			extra = append(extra, smt.Not(k.region))
+	var r smt.Result
+	who := ""
+	if len(known) > 0 {
+		// simplify the assertion under "outside every open region"
+		tmp := map[int]bool{}
+		for k, v := range p.atoms {
+			tmp[k] = v
 		}
+		for _, k := range known {
+			if p.opts.KnownOpen[k.id] {
+				nr := smt.Not(k.region)
+				extra = append(extra, nr)
+				if nr.Op == "and" {
+					for _, a := range nr.Args {
+						tmp[a.ID()] = true
+					}
+				} else {
+					tmp[nr.ID()] = true
+				}
+			}
+		}
+		if smt.SimplifyUnder(c, tmp).IsTrue() {
+			r = smt.Unsat
+		} else {
+			t0 := time.Now()
+			r, who = p.decide(extra)
+			if smt.QLog {
+				fmt.Fprintf(os.Stderr, "A %.2f %s %v\n", time.Since(t0).Seconds(), site, r)
+			}
+		}
+	} else {
+		r, who = p.decide(extra)
 	}
-	r, who := p.decide(extra)
 	switch r {
 	case smt.Sat:
 		f := Finding{Site: site, Kind: "assert", Msg: msg, Decisions: append([]int(nil), p.decisions...), Choices: copyChoices(p.res.Choices), Solver: who}
@@ -362,27 +434,33 @@ func (p *pathState) checkAssert(site string, c *smt.Term, msg string) {
 		if !p.opts.KnownOpen[k.id] {
 			continue
 		}
+		if _, seen := p.opts.KnownSeen.Load(k.id); seen {
+			continue // one witness per run is enough
+		}
 		r, who := p.decide([]*smt.Term{neg, k.region})
 		if r == smt.Sat {
 			f := Finding{Site: site, Kind: "assert", Msg: msg, KnownID: k.id, Decisions: append([]int(nil), p.decisions...), Choices: copyChoices(p.res.Choices), Solver: who}
 			f.Inputs = p.lastModel
 			p.res.Known = append(p.res.Known, f)
-		} else if r == smt.Unknown {
-			p.res.Unknowns = append(p.res.Unknowns, "assert-known:"+site)
+			p.opts.KnownSeen.Store(k.id, true)
 		}
 	}
 	// continue under the assumption that the assertion holds
 	p.assume(c)
 	if len(known) > 0 {
-		// pc may have become unsatisfiable (assertion never holds on this path)
-		if p.sess.Check() == smt.Unsat {
-			panic(pathAbort{kind: abortInfeasible, msg: "path continues only inside a known finding region"})
-		}
+		// the path may now continue only vacuously (inside a known region the
+		// assertion never holds); its feasibility is settled lazily
+		p.lazy = true
 	}
 }
 
 // decide checks pc ∧ extra with the incremental solver, falling back to the portfolio.
 func (p *pathState) decide(extra []*smt.Term) (smt.Result, string) {
+	for _, e := range extra {
+		if e.IsFalse() {
+			return smt.Unsat, "trivial"
+		}
+	}
 	p.sess.Push()
 	for _, e := range extra {
 		p.sess.Assert(e)
@@ -417,6 +495,31 @@ func (p *pathState) portfolioModel(all []*smt.Term) map[string]string {
 
 // finish runs the end-of-path checks (overflow obligations).
 func (p *pathState) finish() {
+	if p.lazy {
+		need := p.wantWitness
+		for _, r := range p.res.Reached {
+			if _, ok := p.opts.ReachSeen.Load(r); !ok {
+				need = true
+			}
+		}
+		if !need {
+			p.res.FeasSkipped = true
+		}
+	}
+	if p.lazy && !p.res.FeasSkipped {
+		switch p.sess.Check() {
+		case smt.Unsat:
+			p.res.Outcome = "infeasible"
+			p.res.Reached = nil
+			return
+		case smt.Unknown:
+			p.res.FeasUnknown++
+		case smt.Sat:
+			for _, r := range p.res.Reached {
+				p.opts.ReachSeen.Store(r, true)
+			}
+		}
+	}
 	if len(p.oblig) == 0 {
 		return
 	}
